@@ -30,6 +30,9 @@ CHECKS = {
  "C10": ("exploration", "wire-length monitor and core output-callback monitor under any-int SetMtu values before/during traffic; enumerated staging-buffer fill levels; process-survival oracle",
    "Held on the executions produced; the staging sweep enumerates every ACK-count/probe/segment-size combination around the MTU boundary for 15 MTU values.",
    "pipeline drained before a switch so that 'from then on' is well defined", "DESIGN.md §3 C10"),
+ "C15": ("exploration", "goroutine/callback leak monitor at bubble quiescence after scripted Close orders; buffer-pool sanitizer (ownership map, poison, quarantine) at hook H2 in every scenario",
+   "Held on the Close scripts and buffer acquisitions executed (hundreds of thousands of tracked acquisitions per quick run); a survivor goroutine is reported with its stack, a double recycle with both recycling stacks.",
+   "runtime.Stack parsing; hook H2 add-only call-outs in bufferPool.Get/Put", "DESIGN.md §3 C15"),
  "C16": ("exploration", "decoder-state monitor (effective ratio after n packets) over exhaustively enumerated small ratio pairs and starting offsets plus sampled large ones; C07 oracle after convergence; stability soak with hostile arrival patterns; session-level runs",
    "All unequal pairs with d,p<=4 at every starting offset are executed; larger ratios sampled.",
    "uninterrupted-run precondition enforced by the generator / measured on the wire", "DESIGN.md §3 C16"),
